@@ -13,9 +13,9 @@ package props
 // VERIF_C06_POISON=0 disables the hook (the check must pass either way).
 
 import (
-	"os"
 	"github.com/cosmos72/gomacro/fast"
 	xr "github.com/cosmos72/gomacro/xreflect"
+	"os"
 )
 
 type c06Poisoned struct{ PoisonedFrameSlot string }
